@@ -23,6 +23,9 @@ var (
 
 type Evaluator struct {
 	ctx *ctx.EvalCtx
+
+	// usingLayout is true while the layout of a use statement is evaluated
+	usingLayout bool
 }
 
 func New(ctx *ctx.EvalCtx) *Evaluator {
@@ -197,7 +200,15 @@ func (e *Evaluator) evalUseStmt(node *ast.UseStmt, env *object.Env) object.Objec
 		return e.newError(node, fail.ErrUseStmtNotAllowed)
 	}
 
+	// a use statement met while its layout is evaluated (one written inside
+	// an insert block) would evaluate the layout again and again
+	if e.usingLayout {
+		return e.newError(node, fail.ErrUseStmtNotAllowed)
+	}
+
+	e.usingLayout = true
 	layoutContent := e.Eval(node.Program, env)
+	e.usingLayout = false
 
 	if isError(layoutContent) {
 		return layoutContent
